@@ -271,3 +271,35 @@ def run(ctx):
     rootdc = [x for x in own_nodes(bd.node) if isinstance(x, ast.Call) and norm(x.func) == "copy.deepcopy" and "_root" in norm(x.args[0])]
     c.ob("R6", bool(rootdc), bd, "build-deepcopies-root", "root properties are deep-copied per build" if rootdc else
          "root properties are shared between builds", bd.node)
+
+
+_run_before_r10 = run
+
+
+def run(ctx):
+    _run_before_r10(ctx)
+    # ---- R10 the guard of every visited transition is collected, whatever its actions are -------------------------------------
+    # A transition may carry a guard and no action (or only built-in actions).  The collector call for <t>.guard_def therefore runs
+    # once per iteration of the loop that binds <t>: not inside a deeper loop (zero actions -> never), not behind a continue / branch.
+    from sa.util import every_iteration
+    c, p = ctx.c, ctx.p
+    ex = p.cls("LogicLoader").methods["_extract_logic_from_node"]
+    shared.walker_kind_blind(ctx, "R11", ex, "action / guard / service names")
+    calls = [x for x in own_nodes(ex.node) if isinstance(x, ast.Call) and norm(x.func).endswith("_collect_guard_names") and x.args]
+    c.expect("R10", "guard collection sites in the extractor", len(calls), 2, ex,
+             "logic discovery no longer collects guard names from both the state's transitions and the invoke handlers: a referenced guard stays unbound until it is evaluated")
+    for i, x in enumerate(sorted(calls, key=lambda n: n.lineno)):
+        a0 = x.args[0]
+        base = a0.value.id if isinstance(a0, ast.Attribute) and isinstance(a0.value, ast.Name) else None
+        loops = [l for l in enclosing_loops(ex, x) if isinstance(l, ast.For)]
+        binder = next((l for l in loops if base is not None and base in names_in(l.target)), None)
+        if binder is None:
+            ok = not loops and not guards_at(ex, x) if base is None else False
+            if base is not None and not loops:
+                ok = True       # a single transition read off the node (e.g. node.on_done), guarded by its presence
+        else:
+            ok = loops[0] is binder and every_iteration(ex, binder, [x])
+        c.ob("R10", ok, ex, f"guard-collected-per-transition#{i}",
+             "the guard of each visited transition is collected once, whatever actions the transition has" if ok else
+             f"'{stmt_text(x)}' does not run once for every transition of its loop (it sits in a deeper loop, or an iteration can end before it): the guard of a "
+             f"transition without user actions is never recorded, so discovery leaves it unbound and a missing guard is not reported at creation", x)
